@@ -338,6 +338,7 @@ impl CoreOp {
     decreases *ast,
 //@@ END
 
+//@@ INCLUDE conv_meaning.inc.rs
 } // verus!
 
 fn main() {}
